@@ -1,12 +1,13 @@
 """Monitor (lock-invariant) reasoning for ``with self.<lock>:`` blocks, Owicki-Gries style.
 
-A lock field owns a set of fields of the same object.  While the lock is not held
-by the executing thread, an owned field read yields an arbitrary value (any other
-thread may have written it).  On acquiring the lock the owned fields are havoc'd
-under the *rely* (the ghost history may have grown by any number of entries that
-other threads installed) and the lock invariant is assumed; every store to an
-owned field inside the critical section updates the ghost history; on every exit
-of the block (normal, return, raise) the lock invariant is an obligation.
+A lock field owns a set of fields of the same object (and optionally *guards* other
+locations and ghost variables).  While the lock is not held by the executing thread,
+an owned field read yields an arbitrary value (any other thread may have written it).
+On acquiring the lock the owned locations are havoc'd under the *rely* (what other
+threads may have done since this thread last knew them) and the lock invariant is
+assumed; every store to the history field inside the critical section updates the
+ghost history; on every exit of the block (normal, return, raise) the lock invariant
+is an obligation.
 
 Assumptions (trusted): threading.RLock/Lock/Condition give mutual exclusion; single
 attribute loads/stores are atomic; sequentially consistent memory (CPython + GIL).
@@ -18,16 +19,22 @@ import ast
 import z3
 
 from . import vals as V
-from .engine import SV, Raise, Unsupported, Exc
+from .engine import SV, Raise, Unsupported, Exc, Model
 
 
 class Monitor:
-    def __init__(self, lock_field, owned, hist_field=None, invariant=None, reentrant_callbacks=True):
+    def __init__(self, lock_field, owned, hist_field=None, invariant=None, reentrant_callbacks=True, cls=None, rely=None, ghosts=(), guards=None, name=None):
         self.lock_field = lock_field
         self.owned = list(owned)
         self.hist_field = hist_field  # owned field whose successive values form the ghost history
         self.invariant = invariant  # callable(eng, st, obj_term) -> z3 Bool, beyond the built-in hist link
         self.reentrant_callbacks = reentrant_callbacks
+        self.cls = cls  # python class whose instances carry this lock (None: any)
+        self.rely = rely  # callable(eng, st, obj_term, old: dict, new: dict) -> z3 Bool assumed on acquire
+        self.ghosts = tuple(ghosts)  # ghost variables (names in st.ghost) owned by the lock
+        self.guards = guards  # callable(eng, st, obj_term) -> [(obj_term2, field)] extra locations protected
+        self.name = name or lock_field
+        self.on_store_extra = None
 
     # -- ghost helpers
     def hist(self, st):
@@ -45,6 +52,7 @@ class Monitor:
                 "init_ok": True,
                 "reentrant": self.reentrant_callbacks,
                 "on_store": self.on_store,
+                "cls": self.cls,
             }
         prev = eng.with_hook
         eng.monitors = getattr(eng, "monitors", []) + [self]
@@ -52,7 +60,10 @@ class Monitor:
         def hook(eng_, node, item, cm, st_, fr):
             ce = item.context_expr
             if isinstance(ce, ast.Attribute) and ce.attr == self.lock_field:
-                yield from self.with_block(eng_, node, ce, st_, fr)
+                handled = False
+                for r in self.with_block(eng_, node, ce, st_, fr, prev, item, cm):
+                    handled = True
+                    yield r
                 return
             if prev is not None:
                 yield from prev(eng_, node, item, cm, st_, fr)
@@ -61,9 +72,12 @@ class Monitor:
 
         eng.with_hook = hook
         st.ghost.setdefault("n_mine", z3.IntVal(0))
-        self.hist(st)
+        if self.hist_field:
+            self.hist(st)
 
     def on_store(self, eng, st, obj_term, fname, val_term):
+        if self.on_store_extra is not None:
+            self.on_store_extra(eng, st, obj_term, fname, val_term)
         if fname != self.hist_field:
             return
         h = self.hist(st)
@@ -72,8 +86,6 @@ class Monitor:
         st.ghost["mine_at"] = z3.Length(h)
         st.ghost["hist"] = z3.Concat(h, z3.Unit(val_term))
         st.ghost["n_mine"] = st.ghost.get("n_mine", z3.IntVal(0)) + 1
-        st.ghost.setdefault("mine_log", [])
-        st.ghost["mine_log"] = st.ghost["mine_log"] + [(st.ghost["mine_prev"], val_term, len(st.calls))]
 
     def lock_inv(self, eng, st, obj_term):
         facts = []
@@ -85,35 +97,82 @@ class Monitor:
             facts.append(self.invariant(eng, st, obj_term))
         return z3.And(*facts) if facts else z3.BoolVal(True)
 
+    def locations(self, eng, st, obj_term):
+        locs = [(obj_term, f) for f in self.owned]
+        if self.guards is not None:
+            locs += list(self.guards(eng, st, obj_term))
+        return locs
+
+    def snapshot(self, eng, st, obj_term):
+        snap = {}
+        for o, f in self.locations(eng, st, obj_term):
+            snap[f] = z3.Select(st.field_array(f), V.Val.a(o))
+        for gname in self.ghosts:
+            snap[gname] = st.ghost.get(gname)
+        return snap
+
     def acquire(self, eng, st, obj_term):
-        """Effects of acquiring the lock when this thread does not hold it."""
-        a = V.Val.a(obj_term)
-        for f in self.owned:
+        """Effects of acquiring the lock when this thread does not hold it (also: Condition.wait)."""
+        old = self.snapshot(eng, st, obj_term)
+        known = st.ghost.get(("known", self.name))  # what this thread knew when it last released
+        for o, f in self.locations(eng, st, obj_term):
             v = V.fresh_val(f"acq_{f}")
             st.assume(eng.external_ref_fact(st, v))
-            st.heap[f] = z3.Store(st.field_array(f), a, v)
+            st.heap[f] = z3.Store(st.field_array(f), V.Val.a(o), v)
+        for gname in self.ghosts:
+            cur = st.ghost.get(gname)
+            if cur is not None:
+                st.ghost[gname] = z3.Const(V.fresh_name(f"acq_{gname}"), cur.sort())
         if self.hist_field:
             h = self.hist(st)
             ext = z3.Const(V.fresh_name("env_appends"), V.ValSeq)
             st.ghost["hist"] = z3.Concat(h, ext)
-        if getattr(self, "rely", None) is not None:
-            self.rely(eng, st, obj_term)
+        new = self.snapshot(eng, st, obj_term)
+        if self.rely is not None and known is not None:
+            st.assume(self.rely(eng, st, obj_term, known, new))
         st.assume(self.lock_inv(eng, st, obj_term))
+        st.ghost[("acq", self.name)] = new
 
-    def with_block(self, eng, node, ce, st, fr):
+    def release(self, eng, st, obj_term, line=0):
+        now = self.snapshot(eng, st, obj_term)
+        acq = st.ghost.get(("acq", self.name))
+        if self.rely is not None and acq is not None:
+            eng.oblige(st, f"guarantee of {self.name}: the critical section is a step other threads may rely on", self.rely(eng, st, obj_term, acq, now), "guarantee", line)
+        st.ghost[("known", self.name)] = now
+
+    def applies(self, obj):
+        if self.cls is None:
+            return True
+        return isinstance(obj, SV) and obj.hint is not None and issubclass(obj.hint, self.cls)
+
+    def is_held(self, st, obj_term):
+        return any(n == self.lock_field and z3.eq(z3.simplify(o), z3.simplify(obj_term)) for o, n in st.locks)
+
+    def with_block(self, eng, node, ce, st, fr, prev=None, item=None, cm=None):
         for st1, obj in eng.eval(ce.value, st, fr):
             if isinstance(obj, Raise):
                 yield st1, ("raise", obj.exc)
                 continue
             if not isinstance(obj, SV):
                 raise Unsupported("lock owner is not a symbolic object")
-            held = any(n == self.lock_field and z3.eq(z3.simplify(o), z3.simplify(obj.t)) for o, n in st1.locks)
+            if not self.applies(obj):
+                if prev is not None:
+                    yield from prev(eng, node, item, cm, st1, fr)
+                else:
+                    # a lock this pack says nothing about: mutual exclusion only, nothing owned
+                    st1.locks.append((obj.t, self.lock_field + "?"))
+                    for st2, ex in eng.exec_block(node.body, st1, fr):
+                        st2.locks = [lk for lk in st2.locks if not (lk[1] == self.lock_field + "?" and z3.eq(z3.simplify(lk[0]), z3.simplify(obj.t)))]
+                        yield st2, ex
+                continue
+            held = self.is_held(st1, obj.t)
             local = eng._is_local(st1, obj.t) and z3.simplify(V.Val.a(obj.t)).as_long() not in st1.escaped
             if not held and not local and not st1.ghost.get("quiescent"):
                 self.acquire(eng, st1, obj.t)
             elif not held and not local:
                 st1.assume(self.lock_inv(eng, st1, obj.t))
             st1.locks.append((obj.t, self.lock_field))
+            st1.ghost[("lock_owner", self.name)] = obj.t
             if node.items[0].optional_vars is not None:
                 raise Unsupported("with lock as name")
             for st2, ex in eng.exec_block(node.body, st1, fr):
@@ -124,5 +183,41 @@ class Monitor:
                         del st2.locks[k]
                         break
                 if not held:
-                    eng.oblige(st2, f"lock invariant of {self.lock_field} re-established on leaving the block at line {node.lineno}", self.lock_inv(eng, st2, obj.t), "lock-inv", node.lineno)
+                    eng.oblige(st2, f"lock invariant of {self.name} re-established on leaving the block at line {node.lineno}", self.lock_inv(eng, st2, obj.t), "lock-inv", node.lineno)
+                    self.release(eng, st2, obj.t)
                 yield st2, ex
+
+    # -- threading.Condition.wait_for(predicate, timeout): releases the lock while waiting
+    def wait_for_model(self):
+        mon = self
+
+        def wait_for(eng, st, args, kw):
+            cond = args[0]
+            pred = args[1]
+            timeout = args[2] if len(args) > 2 else kw.get("timeout")
+            owner = st.ghost.get(("lock_owner", mon.name))
+            if owner is None:
+                raise Unsupported("wait_for outside the monitor's with block")
+            eng.oblige(st, f"lock invariant of {mon.name} holds when wait_for releases the lock", mon.lock_inv(eng, st, owner), "lock-inv")
+            mon.release(eng, st, owner)
+            # trusted contract of Condition.wait_for: the predicate is evaluated with the lock held; while waiting
+            # the lock is released (other threads run: owned state havoc'd under the rely); it returns the last
+            # value of the predicate, which is truthy unless the timeout elapsed.
+            mon.acquire(eng, st, owner)
+            for st1, r in eng.call(pred, [], {}, st):
+                if isinstance(r, Raise):
+                    yield st1, r
+                    continue
+                tt = eng.lift(timeout, st1)
+                for st2, c in eng.truthy(r, st1):
+                    for st3, b in eng.branch(c, st2):
+                        if b:
+                            yield st3, r
+                        else:
+                            # only possible with a timeout
+                            st3.assume(z3.Not(V.is_none(tt)))
+                            if eng.feasible(st3):
+                                st3.ghost["wait_timed_out"] = True
+                                yield st3, r
+
+        return Model("Condition.wait_for", wait_for)
